@@ -215,6 +215,11 @@ def run(chk):
         ("empty-list", dict(seqs=[]), {"nSeqs": 0}),
         ("empty-array", dict(seqs=np.array([], dtype=str)), {"nSeqs": 0}),
         ("non-string-element", dict(seqs=["CAAA", 5]), {"allStr": False}),
+        # ... also in FIRST position (every element is checked, the first included)
+        ("non-string-first-element", dict(seqs=[5, "CAAA"]), {"allStr": False}),
+        ("none-first-element", dict(seqs=[None, "CAAA", "CADA"]), {"allStr": False}),
+        ("bytes-first-element", dict(seqs=(b"CAAA", "CADA")), {"allStr": False}),
+        ("float-first-element", dict(seqs=[1.5, "CAAA"]), {"allStr": False}),
         ("none-element", dict(seqs=["CAAA", None]), {"allStr": False}),
         ("bytes-element", dict(seqs=[b"CAAA", b"CADA"]), {"allStr": False}),
         ("max_edits=0", dict(max_edits=0), {"maxEdits": 0}),
